@@ -62,6 +62,7 @@ type Contract struct {
 	NoPanic  bool
 	Trusted  string
 	Lets     []LetSpec
+	Bounded  bool     // `bounded F`: F is an exhaustive enumerator (ghost Go func() (cases int, failures []string)) run natively
 	ScopePkg string   // package path whose scope resolves identifiers (extern contracts declared in a package file)
 	ModAny   bool     // `modifies anything`: no frame is claimed; callers havoc the heap
 	Lemma    bool     // a contract-only obligation (no code): `lemma name` blocks
@@ -135,13 +136,13 @@ func parseContractFile(path string) (*ContractFile, error) {
 			kw = m[1]
 		}
 		switch {
-		case kw == "func" || kw == "extern" || kw == "lemma":
+		case kw == "func" || kw == "extern" || kw == "lemma" || kw == "bounded":
 			if err := flush(); err != nil {
 				return nil, err
 			}
 			curType = nil
 			ref := strings.TrimSpace(trim[len(fields[0]):])
-			cur = &Contract{Ref: ref, Extern: kw == "extern", Lemma: kw == "lemma", Loops: map[int]*LoopSpec{}, File: path, Line: i + 1}
+			cur = &Contract{Ref: ref, Extern: kw == "extern", Lemma: kw == "lemma", Bounded: kw == "bounded", Loops: map[int]*LoopSpec{}, File: path, Line: i + 1}
 			cf.Contracts = append(cf.Contracts, cur)
 		case kw == "type":
 			if err := flush(); err != nil {
